@@ -1,6 +1,6 @@
 (* C09 — Lock: mutual exclusion, FIFO hand-off, cancel-safe waiters.
    This file contains only statements closed by `exact` and their Print Assumptions. *)
-From AV Require Import Base Lock LockProofs LockThms.
+From AV Require Import Base Lock LockProofs LockThms LockImp LockGen LockGenEq.
 
 Theorem C09_mutex : forall fa s, reach fa s ->
   (forall t, In t (held s) -> owner s = Some t) /\ length (held s) <= 1.
@@ -71,3 +71,131 @@ Theorem C09_quiescent : forall fa s,
   reach fa s -> (forall t, phase_of s t = Idle) -> held s = [] -> owner s = None /\ waiters s = [].
 Proof. exact lock_quiescent. Qed.
 Print Assumptions C09_quiescent.
+
+(* ---- tie T: the segments of Lock.acquire / acquire_nowait / release / locked regenerated from /repo's source by
+   tools/translate_lock.py (LockGen.v), interpreted by LockImp.exec, ARE the model's step.  For every state s and
+   task t (no reachability hypothesis).  core = the fields the code reads and writes (fast, owner, waiters, futs,
+   nfut).  The remaining fields are not state of the Lock object: phase_of / mustc are the asyncio Task's state
+   (suspension point, Task._must_cancel), held / enq are history variables of the observer; each is determined by
+   the events of the segment (outcome o, e_rel = a nested release() completed, e_enq = items appended). ---- *)
+Theorem C09_tie_acquire_entry : forall s t, phase_of s t = Idle ->
+  forall e k o, exec acquire_entry t env_entry (core s) = (e, k, o) ->
+  let s' := fst (step s (AcqBegin t)) in
+  core s' = k /\ Some (snd (step s (AcqBegin t))) = res_of o /\
+  phase_of s' = phase_upd (phase_of s) t e o /\ mustc s' = mustc s /\
+  held s' = ghost_held (held s) t (e_rel e) (returned o) /\ enq s' = enq s ++ e_enq e.
+Proof. exact tie_acquire_entry_spec. Qed.
+Print Assumptions C09_tie_acquire_entry.
+
+Theorem C09_tie_acquire_nowait : forall s t, phase_of s t = Idle ->
+  forall e k o, exec acquire_nowait_entry t env_entry (core s) = (e, k, o) ->
+  let s' := fst (step s (AcqNowait t)) in
+  core s' = k /\ Some (snd (step s (AcqNowait t))) = res_of o /\
+  phase_of s' = phase_upd (phase_of s) t e o /\ mustc s' = mustc s /\
+  held s' = ghost_held (held s) t (e_rel e) (returned o) /\ enq s' = enq s ++ e_enq e.
+Proof. exact tie_acquire_nowait_spec. Qed.
+Print Assumptions C09_tie_acquire_nowait.
+
+Theorem C09_tie_release : forall s t, phase_of s t = Idle ->
+  forall e k o, exec release_entry t env_entry (core s) = (e, k, o) ->
+  let s' := fst (step s (Release t)) in
+  core s' = k /\ Some (snd (step s (Release t))) = res_of o /\
+  phase_of s' = phase_upd (phase_of s) t e o /\ mustc s' = mustc s /\
+  held s' = ghost_held (held s) t (orb (e_rel e) (returned o)) false /\ enq s' = enq s ++ e_enq e.
+Proof. exact tie_release_spec. Qed.
+Print Assumptions C09_tie_release.
+
+Theorem C09_tie_acquire_yield_resumed : forall s t, phase_of s t = FastYield -> mustc s t = false ->
+  forall e k o, exec acquire_yield_resumed t (env_resume t None) (core s) = (e, k, o) ->
+  let s' := fst (step s (Resume t)) in
+  core s' = k /\ Some (snd (step s (Resume t))) = res_of o /\
+  phase_of s' = phase_upd (upd (phase_of s) t Idle) t e o /\ mustc s' = upd (mustc s) t false /\
+  held s' = ghost_held (held s) t (e_rel e) (returned o) /\ enq s' = enq s ++ e_enq e.
+Proof. exact tie_acquire_yield_resumed_spec. Qed.
+Print Assumptions C09_tie_acquire_yield_resumed.
+
+Theorem C09_tie_acquire_yield_cancelled : forall s t, phase_of s t = FastYield -> mustc s t = true ->
+  forall e k o, exec acquire_yield_cancelled t (env_resume t None) (core s) = (e, k, o) ->
+  let s' := fst (step s (Resume t)) in
+  core s' = k /\ Some (snd (step s (Resume t))) = res_of o /\
+  phase_of s' = phase_upd (upd (phase_of s) t Idle) t e o /\ mustc s' = upd (mustc s) t false /\
+  held s' = ghost_held (held s) t (e_rel e) (returned o) /\ enq s' = enq s ++ e_enq e.
+Proof. exact tie_acquire_yield_cancelled_spec. Qed.
+Print Assumptions C09_tie_acquire_yield_cancelled.
+
+Theorem C09_tie_acquire_wait_resumed : forall s t f,
+  phase_of s t = Waiting f -> futs s f = FSet -> mustc s t = false ->
+  forall e k o, exec acquire_wait_resumed t (env_resume t (Some f)) (core s) = (e, k, o) ->
+  let s' := fst (step s (Resume t)) in
+  core s' = k /\ Some (snd (step s (Resume t))) = res_of o /\
+  phase_of s' = phase_upd (upd (phase_of s) t Idle) t e o /\ mustc s' = upd (mustc s) t false /\
+  held s' = ghost_held (held s) t (e_rel e) (returned o) /\ enq s' = enq s ++ e_enq e.
+Proof. exact tie_acquire_wait_resumed_spec. Qed.
+Print Assumptions C09_tie_acquire_wait_resumed.
+
+Theorem C09_tie_acquire_wait_cancelled : forall s t f,
+  phase_of s t = Waiting f -> futs s f = FCancelled \/ (futs s f = FSet /\ mustc s t = true) ->
+  forall e k o, exec acquire_wait_cancelled t (env_resume t (Some f)) (core s) = (e, k, o) ->
+  let s' := fst (step s (Resume t)) in
+  core s' = k /\ Some (snd (step s (Resume t))) = res_of o /\
+  phase_of s' = phase_upd (upd (phase_of s) t Idle) t e o /\ mustc s' = upd (mustc s) t false /\
+  held s' = ghost_held (held s) t (e_rel e) (returned o) /\ enq s' = enq s ++ e_enq e.
+Proof. exact tie_acquire_wait_cancelled_spec. Qed.
+Print Assumptions C09_tie_acquire_wait_cancelled.
+
+Theorem C09_tie_locked : forall s,
+  eval_cond locked_cond 0 env_entry (core s) = Some (match owner s with Some _ => true | None => false end).
+Proof. exact tie_locked. Qed.
+Print Assumptions C09_tie_locked.
+
+(* the machine that runs the generated segments (LockImp.gstep: entry segment on a call, continuation segment chosen
+   by the await the task is suspended at and by whether CancelledError is raised there; ghost fields by LockImp.lift)
+   is the model, op by op; hence every theorem above holds of runs of the generated code *)
+Theorem C09_tie_machine : forall s o, gstep lock_prog s o = step s o.
+Proof. exact gstep_eq_step. Qed.
+Print Assumptions C09_tie_machine.
+
+Theorem C09_tie_gen_mutex : forall fa ops,
+  let s := final (gstep lock_prog) (init fa) ops in
+  (forall t, In t (held s) -> owner s = Some t) /\ length (held s) <= 1.
+Proof. exact gen_mutex_run. Qed.
+Print Assumptions C09_tie_gen_mutex.
+
+Theorem C09_tie_gen_acquire_returns_to_owner : forall fa ops o t s',
+  let s := final (gstep lock_prog) (init fa) ops in
+  acquire_op o t -> gstep lock_prog s o = (s', RDone) ->
+  owner s' = Some t /\ In t (held s') /\ (forall x, In x (held s') -> x = t).
+Proof. exact gen_acquire_returns_to_owner_run. Qed.
+Print Assumptions C09_tie_gen_acquire_returns_to_owner.
+
+Theorem C09_tie_gen_handoff_first_live : forall s t, phase_of s t = Idle -> owner s = Some t ->
+  let s' := fst (gstep lock_prog s (Release t)) in
+  snd (gstep lock_prog s (Release t)) = RDone /\
+  match owner s' with
+  | Some w => exists pre f, waiters s = pre ++ (w, f) :: waiters s' /\ futs s f <> FCancelled /\
+                            (forall t' f', In (t', f') pre -> futs s f' = FCancelled)
+  | None => waiters s' = [] /\ forall t' f', In (t', f') (waiters s) -> futs s f' = FCancelled
+  end.
+Proof. exact gen_handoff_first_live. Qed.
+Print Assumptions C09_tie_gen_handoff_first_live.
+
+Theorem C09_tie_gen_errors : forall s t, phase_of s t = Idle ->
+  (owner s <> Some t -> gstep lock_prog s (Release t) = (s, RRuntime)) /\
+  (owner s = Some t ->
+   gstep lock_prog s (AcqBegin t) = (s, RRuntime) /\ gstep lock_prog s (AcqNowait t) = (s, RRuntime)).
+Proof. exact gen_errors. Qed.
+Print Assumptions C09_tie_gen_errors.
+
+Theorem C09_tie_gen_cancelled_waiter_never_holds : forall fa ops t f,
+  let s := final (gstep lock_prog) (init fa) ops in
+  phase_of s t = Waiting f -> futs s f = FCancelled ->
+  let s' := fst (gstep lock_prog s (Resume t)) in
+  snd (gstep lock_prog s (Resume t)) = RCancelled /\ ~ In t (held s') /\ owner s' <> Some t /\
+  ~ In t (map fst (waiters s')) /\ phase_of s' t = Idle.
+Proof. exact gen_cancelled_waiter_never_holds_run. Qed.
+Print Assumptions C09_tie_gen_cancelled_waiter_never_holds.
+
+Theorem C09_tie_gen_no_free_with_waiters : forall fa ops,
+  let s := final (gstep lock_prog) (init fa) ops in owner s = None -> waiters s = [].
+Proof. exact gen_no_free_with_waiters_run. Qed.
+Print Assumptions C09_tie_gen_no_free_with_waiters.
